@@ -141,7 +141,8 @@ struct MState {
     staged_raw: BTreeMap<String, Vec<String>>,
 }
 
-fn coq_state(s: &MState, it: &mut Interner) -> String {
+/// The four components of a state as Coq terms (base, registry, snapshot, staged).
+fn coq_state_parts(s: &MState, it: &mut Interner) -> [String; 4] {
     let pubs: Vec<String> = s.pubs.iter().map(|(h, j)| format!("({}, {})", coq_nlist(&it.handle(h)), coq_jail(j))).collect();
     let snap: Vec<String> = s.snap.iter().map(|(h, objs)| {
         let os: Vec<String> = objs.iter().map(|(u, hh, c)| format!("({}, ({}, {}))", coq_uri(u), hh, c)).collect();
@@ -150,7 +151,27 @@ fn coq_state(s: &MState, it: &mut Interner) -> String {
     let staged: Vec<String> = s.staged.iter().map(|(h, els)| {
         format!("({}, {})", coq_nlist(&it.handle(h)), coq_list(&els.iter().map(coq_elem).collect::<Vec<_>>()))
     }).collect();
-    format!("(mkState {} {} {} {} {})", coq_jail(&s.base), coq_list(&pubs), coq_list(&snap), coq_list(&staged), s.serial)
+    [coq_jail(&s.base), coq_list(&pubs), coq_list(&snap), coq_list(&staged)]
+}
+
+/// One case as a self-contained Coq term. Components that are textually equal before and after
+/// the request (and list/details answers that coincide) are bound once with `let`, which halves
+/// the size of the generated files; the term means exactly `mkCase pre op post reply obs`.
+fn coq_case(pre: &MState, op_term: &str, post: &MState, reply: &str, obs: &[HObs], it: &mut Interner) -> (String, String) {
+    let a = coq_state_parts(pre, it);
+    let b = coq_state_parts(post, it);
+    let names = ["b0", "p0", "s0", "g0"];
+    let mut lets = String::new();
+    let mut post_parts: Vec<String> = Vec::new();
+    for i in 0..4 {
+        lets.push_str(&format!("let {} := {} in ", names[i], a[i]));
+        if a[i] == b[i] { post_parts.push(names[i].to_string()) } else { post_parts.push(b[i].clone()) }
+    }
+    let obs_terms: Vec<String> = obs.iter().map(|o| coq_obs(o, it)).collect();
+    let pre_key = format!("{} {} {} {} {}", a[0], a[1], a[2], a[3], pre.serial);
+    let term = format!("({}mkCase (mkState b0 p0 s0 g0 {}) {} (mkState {} {} {} {} {}) {} {})",
+        lets, pre.serial, op_term, post_parts[0], post_parts[1], post_parts[2], post_parts[3], post.serial, reply, coq_list(&obs_terms));
+    (term, pre_key)
 }
 
 // ---------------------------------------------------------------- the real server
@@ -261,11 +282,15 @@ fn observe_handle(srv: &Server, h: &str, it: &mut Interner) -> HObs {
 
 fn coq_obs(o: &HObs, it: &mut Interner) -> String {
     let l: Vec<String> = o.list.iter().map(|(_, u, h)| format!("({}, {})", coq_uri(u), h)).collect();
-    let d = match &o.details {
-        None => "None".to_string(),
-        Some((j, files)) => format!("(Some ({}, {}))", coq_jail(j), coq_list(&files.iter().map(|(_, u, c)| format!("({}, {})", coq_uri(u), c)).collect::<Vec<_>>())),
-    };
-    format!("(mkObs {} {} {})", coq_nlist(&it.handle(&o.handle)), coq_list(&l), d)
+    let l = coq_list(&l);
+    match &o.details {
+        None => format!("(mkObs {} {} None)", coq_nlist(&it.handle(&o.handle)), l),
+        Some((j, files)) => {
+            let f = coq_list(&files.iter().map(|(_, u, c)| format!("({}, {})", coq_uri(u), c)).collect::<Vec<_>>());
+            if f == l { format!("(let l := {} in mkObs {} l (Some ({}, l)))", l, coq_nlist(&it.handle(&o.handle)), coq_jail(j)) }
+            else { format!("(mkObs {} {} (Some ({}, {})))", coq_nlist(&it.handle(&o.handle)), l, coq_jail(j), f) }
+        }
+    }
 }
 
 // ---------------------------------------------------------------- requests
@@ -713,10 +738,8 @@ fn run(args: &Args) -> i32 {
                 }
                 let class = json!({"f10a": f10a, "incoherent": inco});
                 *class_hist.entry(format!("f10a={f10a},incoherent={inco}")).or_default() += 1;
-                let pre_term = coq_state(&pre, &mut it);
                 let op_term = coq_op(&op, &mut it);
-                let term = format!("mkCase {} {} {} {} {}", pre_term, op_term, coq_state(&post, &mut it), reply,
-                    coq_list(&obs.iter().map(|o| coq_obs(o, &mut it)).collect::<Vec<_>>()));
+                let (term, pre_term) = coq_case(&pre, &op_term, &post, &reply, &obs, &mut it);
                 let nontrivial = match &op {
                     GOp::Publish(_, els, _) => !els.is_empty(),
                     GOp::Remove(_) | GOp::Update => pre_views.values().any(|v| !v.is_empty()) || pre.staged.values().any(|v| !v.is_empty()),
